@@ -32,6 +32,16 @@ func witnessNested() *Case {
 	}}
 }
 
+func witnessCallResult() *Case {
+	// $v0 = new O; $v0->p0 = [1,2,3]; $v1 = call0($v0->get0());  with call0($p) { $p[] = 9; return $p; }
+	// — C06_call_result_copy_needed: fine on this tree, leaks when the copy at the binding is elided
+	return &Case{NV: 2, Shape: "list", Route: "getter>func", Mut: "append", Side: "copy", Ops: []Op{
+		{K: "new", X: 0},
+		{K: "setProp", X: 0, P: 0, R: RLit(LArr(LInt(1), LInt(2), LInt(3)))},
+		{K: "call", X: 1, Y: 0, Arg: RCall(Pr(0, 0)), Inner: []Op{app(V(1), RInt(9))}},
+	}}
+}
+
 func (r *runner) modelAgreesWithSpec(cs *Case) (agree bool, inFragment bool) {
 	if r.m == nil {
 		return false, false
@@ -159,6 +169,7 @@ func Run(c *vh.Ctx) {
 	}
 	r.runCase(witnessFlat(), true)
 	r.runCase(witnessNested(), true)
+	r.runCase(witnessCallResult(), true)
 
 	// a tree on which programs keep killing the interpreter is reported after a bounded number of losses
 	tooManyCrashes := func() bool {
